@@ -63,16 +63,21 @@ theorem compare_head_spec (l r : List H) (hl : Atoms l) (hr : Atoms r)
           obtain ⟨t, rfl⟩ := hpre; simp
         have hle : ¬ l.length < r.length := by
           obtain ⟨t, rfl⟩ := hpre; simp
-        have hp2 : hasPrefix l b r.length = true := by
-          unfold hasPrefix
-          have : ¬ (r.length = 0 ∨ l.length < r.length) := by omega
-          rw [if_neg this, htake, hb]; simp
+        have hidx : r.length - 1 + 1 = r.length := by omega
+        have hp2 : containsHead l b [r.length - 1] r.length = true := by
+          unfold containsHead
+          simp only [List.length_cons, List.length_nil, List.head?_cons, Option.map_some, hidx,
+            and_self, if_true, if_neg hle, htake, hb]
+          simp
         simp [verify, hvt, hp2, hpre]
       · simp only [hpre, if_false]
         by_cases hvt : verifyRoot (proof r (r.length - 1)) (r.length - 1) l[r.length - 1] r.length = some b
-        · have hp2 : hasPrefix l b r.length = false := by
-            unfold hasPrefix
-            by_cases hc : r.length = 0 ∨ l.length < r.length
+        · have hidx : r.length - 1 + 1 = r.length := by omega
+          have hp2 : containsHead l b [r.length - 1] r.length = false := by
+            unfold containsHead
+            simp only [List.length_cons, List.length_nil, List.head?_cons, Option.map_some, hidx,
+              and_self, if_true]
+            by_cases hc : l.length < r.length
             · rw [if_pos hc]
             · rw [if_neg hc]
               have hne2 : ¬ root (l.take r.length) = some b := by
@@ -110,13 +115,16 @@ theorem compare_contains_iff (l r : List H) (hl : Atoms l) (hr : Atoms r)
     · simp [h, h2]; exact eq_comm
     · simp [h, h2]
 
-/-- C08/5.  Whatever single-index proof is presented (stale, forged, from a
-diverged log), `contains` is answered only if the claimed root really is the root of
-the first `length` local leaves. -/
-theorem compare_contains_any_proof (l : List H) (p : CommitProof) (ix : List Nat)
+/-- C08/5.  Whatever head-shaped proof is presented (stale, forged, from a diverged
+log: any root, any hashes, any length, proving the last position), `contains` is
+answered only if the claimed root really is the root of the first `length` local
+leaves. -/
+theorem compare_contains_any_head_proof (l : List H) (p : CommitProof) (ix : List Nat)
+    (hshape : p.indices = [p.length - 1]) (hlen : 0 < p.length)
     (h : Merkle.compare l p = some (some (.contains ix))) :
-    0 < p.length ∧ p.length ≤ l.length ∧ root (l.take p.length) = some p.root := by
-  cases hpf : hasPrefix l p.root p.length with
+    p.length ≤ l.length ∧ root (l.take p.length) = some p.root := by
+  have hidx : p.length - 1 + 1 = p.length := by omega
+  cases hpf : containsHead l p.root p.indices p.length with
   | false =>
     exfalso
     unfold Merkle.compare at h
@@ -129,11 +137,14 @@ theorem compare_contains_any_proof (l : List H) (p : CommitProof) (ix : List Nat
         · split at h <;> simp at h
         · cases h
   | true =>
-    unfold hasPrefix at hpf
+    unfold containsHead at hpf
+    rw [hshape] at hpf
+    simp only [List.length_cons, List.length_nil, List.head?_cons, Option.map_some, hidx,
+      and_self, if_true] at hpf
     split at hpf
     · cases hpf
     · rename_i hc
-      exact ⟨by omega, by omega, by simpa using hpf⟩
+      exact ⟨by omega, by simpa using hpf⟩
 
 /-- C08/6.  A single-leaf proof taken from a log `r` at position `i` verifies
 against a replica `l` of any length exactly when `l` holds the same commit at `i`. -/
